@@ -1064,6 +1064,19 @@ def to_inlined(g):
     return gb
 
 
+def simrun_upstream_of_dd(g):
+    """statements that produce a dyndep file, directly or through other statements"""
+    prod = producer_map(g)
+    out, todo = set(), [d for d, i in g.get('dd_files', {}).items() if i.get('produced')]
+    while todo:
+        e = prod.get(todo.pop())
+        if e is None or key(e) in out:
+            continue
+        out.add(key(e))
+        todo += e['exp'] + e['imp'] + e['oo'] + list(e.get('hidden', []))
+    return out
+
+
 SKIP_IN_C10 = ('wipe_deps', 'del_depfile', 'rehide', 'swap_hidden_same_content', 'edit_recent_hidden')
 
 
@@ -1076,6 +1089,9 @@ def run_metamorphic(simA, ops, transform=None, prop='C10', what='declared-implic
     for dd, info in simA.g.get('dd_files', {}).items():
         if dd in simA.files and dd not in simB.files:
             simB.files[dd] = dict(simA.files[dd])
+    # (the second variant's clock must not lag behind the files it was given: a copied dyndep file would otherwise look
+    # newer than what the establishing builds produce - a false alarm of the thorough tier, 2 in 64 000 cases)
+    simB.now = max([simB.now, simA.now] + [f_['m'] for f_ in simB.files.values()])
     try:
         if not simA.establish() or not simB.establish():
             return
@@ -1190,6 +1206,12 @@ def run_metamorphic(simA, ops, transform=None, prop='C10', what='declared-implic
             if (rA['status'] == 0) != (rB['status'] == 0):
                 simA.add(prop, 'build result differs from the %s variant' % what, dict(A=dict(status=rA['status'], err=rA['err']),
                                                                                               B=dict(status=rB['status'], err=rB['err']), targets=targets))
+                break
+            if (stA != stB and prop == 'C11' and rA['status'] != 0 and 'missing and no known rule' in rA['err'] and 'missing and no known rule' in rB['err']
+                    and not stB and all((simA.edge_by_key(k_) or {}).get('is_dd_producer') or k_ in simrun_upstream_of_dd(simA.g) for k_ in stA)):
+                # a missing source behind an input that only a dyndep file reveals cannot be reported before that file has
+                # been produced and read: the inlined manifest knows it at once, the dyndep build after running the producers
+                simA.labels.add('missing_source_found_only_after_dyndep_load')
                 break
             if stA != stB:
                 simA.add(prop, 'commands run differ from the %s variant' % what, dict(A=stA, B=stB, targets=targets))
